@@ -49,15 +49,7 @@ def b01 (b : Bool) : String := if b then "1" else "0"
 
 /-- error kind the specification assigns to a string (C15), over the canonical lists -/
 def specClassify (L : Spec.Lang) (s : Str) : Res Unit :=
-  let toks := splitOn 0x20 (Unicode.nfkd s)
-  if ¬ Spec.ValidWordCount toks.length then .err .wordLen
-  else
-    let rec firstBad : List Str → Nat → Option (Str × Nat)
-      | [], _ => none
-      | t :: ts, i => if (Spec.idxOf L.words t).isSome then firstBad ts (i + 1) else some (t, i)
-    match firstBad toks 0 with
-    | some (t, i) => .err (.unknownWord t i)
-    | none => if Spec.checksumOK D L toks then .ok () else .err .checksum
+  Spec.classify D L (splitOn 0x20 (Unicode.nfkd s))
 
 def parseIoErr (s : String) : Option (Option IoErr) :=
   if s == "-" then some none
